@@ -887,3 +887,36 @@ Proof.
       exists sp. split; [exact S1|]. split; [exact S1f|]. split; [exact S2|].
       split; [fold ptr in V3; lia|exact V1].
 Qed.
+
+(* ------------------------------------------------------------------ *)
+(** * every publication of the running thread happens after its context is saved *)
+
+Lemma safe_run_app_init : forall e rest,
+  pub_ok e = true -> safe_run rest (mkPst false false) = true ->
+  safe_run (expand e ++ rest) (mkPst false false) = true.
+Proof.
+  intros e rest He Hr; destruct e; cbn in He; try discriminate; cbn [expand app]; try exact Hr.
+Qed.
+
+(** Control flow is abstracted away: ANY sequence of events drawn from an accepted body (any
+    path, any number of loop iterations) keeps the invariant "visible to other workers => context
+    saved" at every intermediate step, and every suspension of a thread is a switch with callback;
+    the only publications of the running thread are the MPublish steps between a save and the
+    matching resume, i.e. inside a context-switch callback. *)
+Theorem pub_check_sound : forall evs, pub_check evs = true ->
+  forall trace, Forall (fun e => In e evs) trace ->
+    safe_run (flat_map expand trace) (mkPst false false) = true /\
+    Forall (fun e => e <> PPubSelf /\ e <> PSwitchPlainThread) trace.
+Proof.
+  intros evs Hc trace Ht. unfold pub_check in Hc. rewrite forallb_forall in Hc.
+  induction Ht as [|e tr He Htr IH].
+  - split; [reflexivity|constructor].
+  - destruct IH as [IH1 IH2]. split.
+    + cbn [flat_map]. apply safe_run_app_init; [apply Hc; exact He|exact IH1].
+    + constructor; [|exact IH2]. specialize (Hc e He).
+      split; intros E; subst e; discriminate Hc.
+Qed.
+
+(** conversely, a publication of the running thread outside a callback is unsafe in this model *)
+Lemma pub_self_unsafe : safe_run (flat_map expand [PPubSelf; PSwitchPlainThread]) (mkPst false false) = false.
+Proof. reflexivity. Qed.
